@@ -21,6 +21,7 @@ import zlib
 from lib import common, forkpool, lianrun
 from lib import gen_values as gv
 from lib.monitors import absvalue as av
+from lib.monitors import worklist_comp
 
 PROP = "C08"
 BATCH = 8
@@ -164,6 +165,7 @@ def analyse_batch(job):
     if job.get("explosive"):
         av.limit_child(4 << 30)
     mon = av.Monitors(side_file=side).install()
+    compensated = worklist_comp.install() if job.get("compensate") else None
     entries = [p.entry for p in progs] + [x["entry"] for x in job.get("explosive", [])]
     st = lianrun.write_settings(os.path.join(sc, f"c08st_{tag}"), entry=[{"method_list": entries}])
     ws = os.path.join(sc, f"c08ws_{tag}")
@@ -175,7 +177,7 @@ def analyse_batch(job):
            "folds": len(ms["two_states"]), "stmt_state_calls": ms["stmt_state_calls"], "frames": len(ms["frames"]),
            "big": ms["big"], "wrapped": ms["wrapped"], "other_compiles": summarise_compiles(ms["compiles"]),
            "live_frames": T.live_frames, "live_overwritten": T.live_overwritten, "live_ok": T.live_crosscheck_ok,
-           "live_bad": T.live_crosscheck_bad[:3]}
+           "live_bad": T.live_crosscheck_bad[:3], "compensate": bool(job.get("compensate")), "switch_installed": compensated}
     fold_by_stmt = {}
     for f in ms["two_states"]:
         fold_by_stmt.setdefault(f["stmt_id"], []).append(f)
@@ -327,7 +329,7 @@ def judge_program(p, text, T, ms, fold_by_stmt, job):
                 if construct.startswith("binary-fold"):
                     c2 = refine_fold(construct, m, val, stmts_by_row.get(line - 1, []), fold_by_stmt, found)
                 sig = f"cover:{kind}:{c2}" if found else f"cover:{kind}:{c2}:statement-not-analysed"
-                if sig not in reported:
+                if sig not in reported or job.get("compensate"):
                     reported.add(sig)
                     out["fails"].append((sig, f"line {line} `{p.lines[line - 1].strip()}` with d={list(vec)}: {desc}",
                                          {"line": line, "var": var, "vector": list(vec)}))
@@ -541,8 +543,10 @@ def main():
     results = {}
     variants = {}
     variants2 = {}
+    compensated_results = {}
     pending = list(jobs)
     wave = 0
+    phase = 0
     while pending and wave < 2:
         retry = []
         normal = [j for j in pending if not j.get("explosive")]
@@ -617,9 +621,24 @@ def main():
             for sig, desc, det in v["frontend"]["fails"]:
                 chk.fail(sig, desc, dict(job_case(job), detail=det))
             for uid, pr in v["programs"].items():
-                {0: results, 1: variants, 2: variants2}[v["variant"]][uid] = pr
+                (compensated_results if v.get("compensate") else {0: results, 1: variants, 2: variants2}[v["variant"]])[uid] = pr
         pending = retry
         wave += 1
+        if not pending and phase == 0:
+            # compensation phase (DESIGN 3.7): a program with a loop whose cover fails is analysed again, alone, with the
+            # scheduling of proposed/C08-worklist-order.diff switched on inside the child; a failing definition that is covered
+            # then is attributed to the bounded-visits mechanism, anything that still fails keeps its own signature
+            phase = 1
+            wave = 1
+            all_cases = {c["uid"]: c for j in jobs for c in j["programs"]}
+            for uid, pr in sorted(results.items()):
+                c = all_cases.get(uid)
+                if c is None or not pr.get("fails") or pr.get("dropped"):
+                    continue
+                if not any(m.get("kind") == "loop" for m in c["meta"].values()):
+                    continue
+                if any(f[0].startswith("cover:") for f in pr["fails"]):
+                    pending.append({"tag": f"comp_{uid}", "programs": [c], "side_dir": side_dir, "compensate": True})
     by_uid = {p.uid: p for p in progs}
     if rp:
         by_uid = {c["uid"]: gv.Program.from_case(c) for j in jobs for c in j["programs"]}
@@ -655,7 +674,18 @@ def main():
             chk.nontrivial_case(k)
         if pr["sample"]:
             chk.sample(pr["sample"])
+        comp = compensated_results.get(uid)
+        still = None
+        if comp is not None and not comp.get("dropped"):
+            chk.count("programs re-analysed with the worklist-order compensation switched on")
+            still = {(f[2].get("line"), f[2].get("var")) for f in comp["fails"]}
         for sig, desc, det in pr["fails"]:
+            if still is not None and sig.startswith("cover:") and (det.get("line"), det.get("var")) not in still:
+                chk.count("failing definitions that are covered with the worklist-order compensation on")
+                chk.fail("cover:bounded-visits-in-loops",
+                         desc + f" [own signature {sig}; covered when the program is analysed with the scheduling of "
+                                f"proposed/C08-worklist-order.diff]", dict(case, detail=det))
+                continue
             chk.fail(sig, desc, dict(case, detail=det))
         for sig, desc, det in pr["fold_fails"]:
             chk.fail(sig, desc, dict(case, detail=det))
